@@ -392,6 +392,30 @@ def nested_cases() -> Iterator[dict[str, Any]]:
                 yield _model_case("self-include", ts, data=data)
 
 
+def super_loop_cases() -> Iterator[dict[str, Any]]:
+    """`block.super` referenced several times in one block render - in a loop, twice in a row: every reference
+    renders the less-derived definition again, so the page equals the flat template that has the parent's body
+    written out at each reference (bodies with counters and cycles make a remembered text visible; they do not
+    read the loop variable - whether the parent's body sees it is not documented)."""
+    for body in ("[{% increment n %}]", "({% cycle 'odd', 'even' %})", "[{% increment n %}{% cycle 'a', 'b', 'c' %}]",
+                 "{% decrement d %},", "{{ u }}{% increment n %}"):
+        for over, flat in (
+            ("{% for i in (1..3) %}S{% endfor %}", "{% for i in (1..3) %}B{% endfor %}"),
+            ("S|S", "B|B"),
+            ("{% if f %}S{% endif %}{% for i in (1..2) %}{% for j in (1..2) %}S{% endfor %}{% endfor %}S",
+             "{% if f %}B{% endif %}{% for i in (1..2) %}{% for j in (1..2) %}B{% endfor %}{% endfor %}B"),
+        ):
+            for depth in (2, 3):
+                b = body if depth == 2 else "m(" + body + ")"
+                ts = {"base": "<{% block a %}" + body + "{% endblock %}>{% increment n %}",
+                      "flat": "<" + flat.replace("B", b) + ">{% increment n %}"}
+                if depth == 3:
+                    ts["mid"] = "{% extends 'base' %}{% block a %}m({{ block.super }}){% endblock %}"
+                ts["leaf"] = ("{% extends '" + ("mid" if depth == 3 else "base") + "' %}{% block a %}"
+                              + over.replace("S", "{{ block.super }}") + "{% endblock %}")
+                yield {"kind": "superflat", "fam": "super-repeated", "templates": ts, "data": {"u": "U", "f": True}}
+
+
 # ----------------------------------------------------------------------------- random family
 
 NAMES = "abcdef"
@@ -629,6 +653,7 @@ class C08(Prop):
         yield from error_cases()
         yield from dirname_cases()
         yield from nested_cases()
+        yield from super_loop_cases()
         yield from enum_chain_cases(tier, seed)
 
     def enumerated_is_exhaustive(self, tier: str) -> bool:
@@ -690,6 +715,23 @@ class C08(Prop):
     def check(self, case: Any, disabled: frozenset[str] = frozenset()) -> Result:  # noqa: PLR0912, PLR0915
         if case["kind"] == "identity":
             return self._check_identity(case)
+        if case["kind"] == "superflat":
+            res = Result()
+            res.labels.append("fam:super-repeated")
+            res.nontrivial = True
+            outs = {}
+            for lk, loader_cls in (("dict", DictLoader), ("caching", CachingDictLoader)):
+                env = make_env(loader=loader_cls(dict(case["templates"])), limits={"output_stream_limit": OUTPUT_LIMIT})
+                for mode in ("sync", "async"):
+                    outs[f"{lk}/{mode}"] = (self._render(env, "leaf", case["data"], mode), self._render(env, "flat", case["data"], mode))
+            res.evaluations = 2 * len(outs)
+            for mode, (leaf, flat) in outs.items():
+                if leaf[0] != "ok" or flat[0] != "ok" or leaf[1] != flat[1]:
+                    res.fail("resolution", "super-repeated-differs-from-flat",
+                             f"{mode}: the chain renders {leaf!r}, the flat template with the parent's body at every "
+                             f"block.super renders {flat!r}; templates={case['templates']!r}")
+                    break
+            return res
         res = Result()
         if case["kind"] == "enum":
             templates = build_chain(case["chain"])
@@ -904,6 +946,8 @@ class C08(Prop):
         return alt[1] if alt[0] == "ok" else None
 
     def sample(self, case: Any) -> Any:
+        if case["kind"] == "superflat":
+            return {"fam": "super-repeated", "leaf": case["templates"]["leaf"], "base": case["templates"]["base"]}
         if case["kind"] == "identity":
             return {"fam": "identity", "root": case["root"][:200], "depth": case["depth"]}
         if case["kind"] == "enum":
